@@ -106,10 +106,14 @@ func (f *Fork) Split(n int, opsA, opsB bool) {
 				f.WL.G.RefreshTokens(f.B)
 				f.WL.Ops(f.B)
 			}
-			if f.Swing && w.R.T.Choose(3) == 0 {
+			if f.Swing && (i == 0 || w.R.T.Choose(3) == 0) { // the first slot of the split always: the branches differ from the start
 				// the two branches rank the pillars differently
 				side := []*simnode.Node{f.A, f.B}[w.R.T.Choose(2)]
-				FlowByName("swing-weight").Run(f.WL.G, side)
+				for k := 0; k < 3; k++ {
+					if FlowByName("swing-weight").Run(f.WL.G, side) != nil {
+						break
+					}
+				}
 				f.WL.G.ReceiveSome(side, 3)
 			}
 			w.Net.Flush()
